@@ -79,6 +79,34 @@ func genSequence(rng *rand.Rand, no, maxops int, expiry bool) sequence {
 	if maxops > 5 {
 		n = 5 + rng.Intn(maxops-4)
 	}
+	// Burst sequences: a consumer that does not read while the key changes many
+	// times must still receive every change once it drains (no backlog limit).
+	if !expiry && no%10 == 3 {
+		sq.nkeys = 1
+		key := keyName(0)
+		sq.ops = append(sq.ops, op{kind: opWatchOpen, w: 0})
+		writes := 20 + rng.Intn(45)
+		for i := 0; i < writes; i++ {
+			o := op{key: 0}
+			switch c := rng.Intn(10); {
+			case c < 7:
+				o.kind = opUpdate
+				o.val = []byte(fmt.Sprintf(`{"id":"a","token":"t%d"}`, i))
+				o.rev = model.LastRev(key)
+				model.Update(key, o.val, o.rev)
+			case c < 8:
+				o.kind = opDelete
+				model.Delete(key)
+			default:
+				o.kind = opCreate
+				o.val = []byte("x")
+				model.Create(key, o.val)
+			}
+			sq.ops = append(sq.ops, o)
+		}
+		sq.ops = append(sq.ops, op{kind: opWatchDrain, w: 0}, op{kind: opWatchStop, w: 0})
+		return sq
+	}
 	pickVal := func() []byte {
 		if rng.Intn(100) < 15 {
 			return []byte(fmt.Sprintf(`{"id":"n%d","token":"t%d"}`, rng.Intn(3), rng.Intn(1000)))
